@@ -340,9 +340,11 @@ func (p *Program) verifyLemma(c *Contract) *FuncResult {
 			ex.unsup(token.NoPos, "lemma %s ensures %s: %v", c.Short, e.Label, err)
 			continue
 		}
-		props := e.Props
-		if len(props) == 0 {
-			props = c.Props
+		props := append([]string{}, e.Props...)
+		for _, pp := range c.Props {
+			if !hasProp(props, pp) {
+				props = append(props, pp)
+			}
 		}
 		ex.oblige(res.Name+"#lemma:"+e.Label, "lemma", t, props, token.NoPos, e.Src)
 	}
